@@ -141,14 +141,16 @@ func (c *pcase) initial() map[[2]uint32][]byte {
 	return out
 }
 
-func runIRX(m *ir.Module, c *pcase, limit int64) (o runOut) {
+func runIRX(m *ir.Module, c *pcase, limit int64) runOut { return runIRXLazy(m, c, limit, false) }
+
+func runIRXLazy(m *ir.Module, c *pcase, limit int64, lazy bool) (o runOut) {
 	o.bufs = c.initial()
 	defer func() {
 		if r := recover(); r != nil {
 			o.err = fmt.Errorf("interpreter panic: %v", r)
 		}
 	}()
-	o.res, o.err = irx.Run(m, irx.RunConfig{Entry: c.Entry, Buffers: o.bufs, NumWorkgroups: c.NumWG, StepLimit: limit})
+	o.res, o.err = irx.Run(m, irx.RunConfig{Entry: c.Entry, Buffers: o.bufs, NumWorkgroups: c.NumWG, StepLimit: limit, Lazy: lazy})
 	return o
 }
 
@@ -219,16 +221,14 @@ func ruleCounts(is []irx.Issue) map[string]int {
 	return out
 }
 
-func describe(is []irx.Issue, rule string) string {
+func describeUnknown(m *ir.Module, is []irx.Issue, rule string, passes []string) string {
 	for _, i := range is {
-		if i.Rule == rule {
+		if i.Rule == rule && knownShape(m, i, passes) == "" {
 			return i.String()
 		}
 	}
 	return rule
 }
-
-func knownSkip(tag string) bool { return ev.Excluded(tag) }
 
 func judge(c *pcase) (v verdict) {
 	v.ok = true
@@ -270,6 +270,10 @@ func judge(c *pcase) (v verdict) {
 		v.skip = "nondeterministic-lowering"
 		return v
 	}
+	if tag := knownConstruct(m0, c.Passes); tag != "" {
+		v.skip = "known:" + tag
+		return v
+	}
 	ssa, dup := false, false
 	cur := m1
 	for _, p := range c.Passes {
@@ -302,6 +306,10 @@ func judge(c *pcase) (v verdict) {
 	}
 	h1 := irx.Hash(cur)
 	v.changed = h1 != h0
+	if (hasPass(c.Passes, "dxil:sroa") || hasPass(c.Passes, "dxil:all")) && active("c13-sroa-compose-without-type") && sroaUntypedCompose(cur) {
+		v.skip = "known:c13-sroa-compose-without-type"
+		return v
+	}
 
 	// (b) well-formedness: nothing new relative to before
 	var issues1 []irx.Issue
@@ -314,6 +322,13 @@ func judge(c *pcase) (v verdict) {
 		issues1 = irx.StrictValidateOpts(cur, irx.Options{SSA: ssa})
 	}()
 	c0, c1 := ruleCounts(issues0), ruleCounts(issues1)
+	explained := map[string]int{}
+	for _, is := range issues1 {
+		if tag := knownShape(cur, is, c.Passes); tag != "" {
+			explained[is.Rule]++
+			v.class("known:" + tag)
+		}
+	}
 	var rules []string
 	for r := range c1 {
 		rules = append(rules, r)
@@ -321,15 +336,12 @@ func judge(c *pcase) (v verdict) {
 	sort.Strings(rules)
 	var fresh []string
 	for _, r := range rules {
-		if c1[r] > c0[r] && (c0[r] == 0 || !dup) {
-			if tag := knownShape(cur, issues1, r, c.Passes); tag != "" {
-				v.class("known:" + tag)
-				continue
-			}
-			fresh = append(fresh, fmt.Sprintf("%s (%d before, %d after) e.g. %s", r, c0[r], c1[r], describe(issues1, r)))
+		left := c1[r] - explained[r]
+		if left > c0[r] && (c0[r] == 0 || !dup) {
+			fresh = append(fresh, fmt.Sprintf("%s (%d before, %d after) e.g. %s", r, c0[r], c1[r], describeUnknown(cur, issues1, r, c.Passes)))
 		}
 	}
-	if len(fresh) > 0 {
+	if len(fresh) > 0 && os.Getenv("C13_NOWF") == "" {
 		v.ok = false
 		v.msg = fmt.Sprintf("after %v the module is no longer well-formed:\n%s", c.Passes, strings.Join(fresh, "\n"))
 		return v
@@ -337,7 +349,16 @@ func judge(c *pcase) (v verdict) {
 
 	// (a) behaviour
 	limit := before.res.Steps*16 + 200000
+	lazy := ((hasPass(c.Passes, "inline:") || hasPass(c.Passes, "dxil:prepare")) && active("c13-inline-callresult-load-unemitted")) ||
+		((hasPass(c.Passes, "dxil:dce") || hasPass(c.Passes, "dxil:all")) && active("c13-dce-drops-emit-of-live-expression"))
 	after := runIRX(cur, c, limit)
+	usedLazy := false
+	if lazy && after.err == nil && (strings.HasPrefix(after.res.Trap, "use-before-emit") || strings.HasPrefix(after.res.Trap, "alias-before-def")) {
+		// an open finding leaves expressions without Emit: go on with on-demand evaluation
+		after = runIRXLazy(cur, c, limit, true)
+		usedLazy = true
+		v.class("lazy-evaluation")
+	}
 	switch {
 	case after.err == irx.ErrStepLimit:
 		v.ok, v.msg = false, fmt.Sprintf("after %v the entry point does not terminate within %d steps (before: %d)", c.Passes, limit, before.res.Steps)
@@ -350,6 +371,10 @@ func judge(c *pcase) (v verdict) {
 			v.skip = "after:" + firstLine(after.res.Trap)
 			return v
 		}
+		if strings.HasPrefix(after.res.Trap, "phi-without-predecessor") && (hasPass(c.Passes, "dxil:dce") || hasPass(c.Passes, "dxil:all")) && active("c13-dce-removes-branch-of-phi") {
+			v.skip = "known:c13-dce-removes-branch-of-phi"
+			return v
+		}
 		v.ok, v.msg = false, fmt.Sprintf("after %v executing the entry point traps: %s", c.Passes, after.res.Trap)
 		return v
 	case len(after.res.Poison) > 0:
@@ -357,6 +382,10 @@ func judge(c *pcase) (v verdict) {
 		return v
 	}
 	if msg := diffBuffers(before.bufs, after.bufs); msg != "" {
+		if usedLazy {
+			v.skip = "known:unemitted-expression(lazy-evaluation-differs)"
+			return v
+		}
 		v.ok, v.msg = false, fmt.Sprintf("after %v the entry point computes something else: %s", c.Passes, msg)
 		return v
 	}
@@ -398,12 +427,8 @@ func judge(c *pcase) (v verdict) {
 		last := c.Passes[len(c.Passes)-1]
 		again, err := applyPass(cur, last)
 		if err != nil {
-			if tag := "c13-idempotence-error"; knownSkip(tag) {
-				v.class("known:" + tag)
-			} else {
-				v.ok, v.msg = false, fmt.Sprintf("%s fails when applied a second time: %v", last, err)
-				return v
-			}
+			v.ok, v.msg = false, fmt.Sprintf("%s fails when applied a second time: %v", last, err)
+			return v
 		} else if h2 := irx.Hash(again); h2 != h1 {
 			if tag := idempotenceKnown(last); tag != "" {
 				v.class("known:" + tag)
@@ -510,41 +535,494 @@ func judgeRaw(raw json.RawMessage) (bool, string) {
 // noExclude makes the judge strict (replay / TestKnown).
 var noExclude bool
 
-// knownShape returns the tag of an open known finding that explains new issues of `rule`.
-func knownShape(m *ir.Module, issues []irx.Issue, rule string, passes []string) string {
+// active reports whether a known-finding tag is switched on (never during replay / TestKnown).
+func active(tag string) bool {
 	if noExclude {
-		return ""
+		return false
 	}
-	for _, k := range knownWellFormedness {
-		if k.rule == rule && k.match(m, issues, passes) && ev.Excluded(k.tag) {
-			return k.tag
+	return localKnownTags[tag] || ev.ExcludedQuiet(tag)
+}
+
+// localKnownTags: findings of this check that are not yet listed in known_findings.json.
+var localKnownTags = map[string]bool{
+	"c13-inline-callresult-load-unemitted":       true, // C13-1
+	"c13-inline-callee-locals-not-reinitialised": true, // C13-2
+	"c13-mem2reg-single-block-in-loop":           true, // C13-3
+	"c13-sroa-inplace-rewrite":                   true, // C13-4
+	"c13-dce-removes-branch-of-phi":              true, // C13-5
+	"c13-dce-drops-emit-of-live-expression":      true, // C13-6
+	"c13-mem2reg-not-idempotent":                 true, // C13-7
+	"c13-dce-not-idempotent":                     true, // C13-8
+	"c13-reordertypes-not-idempotent":            true, // C13-9
+	"c13-inline-early-return-in-loop-or-switch":  true, // C13-10
+	"c13-sroa-compose-without-type":              true, // C13-11
+	"c13-mem2reg-switch-early-break":             true, // C13-12
+	"c13-mem2reg-store-before-loop-dropped":      true, // C13-13
+	"c13-compacttypes-not-idempotent":            true, // C13-14
+}
+
+func exprKindOf(is irx.Issue) ir.ExpressionKind {
+	if is.Fn == nil || is.Expr < 0 || is.Expr >= len(is.Fn.Expressions) {
+		return nil
+	}
+	return is.Fn.Expressions[is.Expr].Kind
+}
+
+func isLocalVarExpr(f *ir.Function, h ir.ExpressionHandle) bool {
+	if f == nil || int(h) >= len(f.Expressions) {
+		return false
+	}
+	_, ok := f.Expressions[h].Kind.(ir.ExprLocalVariable)
+	return ok
+}
+
+func typeInArena(m *ir.Module, in ir.TypeInner) bool {
+	for i := range m.Types {
+		if irx.InnersEqual(m, m.Types[i].Inner, in) {
+			return true
 		}
 	}
+	return false
+}
+
+// knownShape returns the tag of the open known finding whose shape the issue has ("" if none).
+func knownShape(m *ir.Module, is irx.Issue, passes []string) string {
+	kind := exprKindOf(is)
+	inl := hasPass(passes, "inline:") || hasPass(passes, "dxil:prepare")
+	sroa := hasPass(passes, "dxil:sroa") || hasPass(passes, "dxil:all")
+	dce := hasPass(passes, "dxil:dce") || hasPass(passes, "dxil:all")
+	tag := ""
+	switch is.Rule {
+	case irx.RuleExprOrder, irx.RuleEmitMissing, irx.RuleAliasUndefined:
+		// C13-1: the inliner rewrites the CallResult slot in place into Load(result local):
+		// the load refers forward and no Emit covers it (a later alias of it has no defined source).
+		ldh := is.Expr
+		if al, ok := kind.(ir.ExprAlias); ok && is.Rule == irx.RuleAliasUndefined {
+			ldh = int(al.Source)
+		}
+		if is.Fn != nil && ldh >= 0 && ldh < len(is.Fn.Expressions) {
+			if ld, ok := is.Fn.Expressions[ldh].Kind.(ir.ExprLoad); ok && inl && isLocalVarExpr(is.Fn, ld.Pointer) {
+				tag = "c13-inline-callresult-load-unemitted"
+			}
+			// … and the callee's FunctionArgument slots into copies of the argument expressions
+			// (named "_<callee>_<param>"), again outside every Emit.
+			if name := is.Fn.NamedExpressions[ir.ExpressionHandle(ldh)]; inl && is.Rule == irx.RuleEmitMissing && strings.HasPrefix(name, "_") {
+				tag = "c13-inline-callresult-load-unemitted"
+			}
+		}
+		// C13-6: DCE removes Emit statements whose expressions kept statements still use.
+		if is.Rule == irx.RuleEmitMissing && dce && tag == "" {
+			tag = "c13-dce-drops-emit-of-live-expression"
+		}
+		// C13-4: SROA rewrites Load(local struct) in place into a Compose of loads appended later.
+		if _, ok := kind.(ir.ExprCompose); ok && is.Rule == irx.RuleExprOrder && sroa {
+			tag = "c13-sroa-inplace-rewrite"
+		}
+	case irx.RuleEmitPre, irx.RuleTypingMismatch:
+		// C13-4: SROA turns AccessIndex(local struct, k) into ExprLocalVariable in place: the slot
+		// stays inside its Emit range and keeps a non-pointer ExpressionTypes entry.
+		if _, ok := kind.(ir.ExprLocalVariable); ok && sroa {
+			tag = "c13-sroa-inplace-rewrite"
+		}
+	case irx.RulePhiPosition:
+		// C13-5: DCE removes the (now empty) If / Switch a phi selects by.
+		if dce {
+			tag = "c13-dce-removes-branch-of-phi"
+		}
+	case irx.RuleHandleRange:
+		// C09-16 again: CompactTypes drops a type only GlobalExpressions refer to.
+		if strings.HasPrefix(is.Where, "global expression [") && strings.Contains(is.Msg, "type handle 4294967295 out of range") {
+			tag = "c09-global-expr-type-handle-dropped-by-compact-types"
+		}
+	case irx.RuleTypingMissing:
+		// C09-4 again: CompactTypes blanks an ExpressionTypes entry whose type nothing else uses.
+		if in := irx.InnerOf(m, is.Inferred); in != nil && is.Inferred.Handle == nil && !typeInArena(m, in) {
+			tag = "c09-exprtype-dropped-by-compact-types"
+		}
+	}
+	if tag != "" && active(tag) {
+		return tag
+	}
 	return ""
+}
+
+var knownIdempotence = map[string]string{
+	"dxil:mem2reg": "c13-mem2reg-not-idempotent",
+	"dxil:dce":     "c13-dce-not-idempotent",
+	"dxil:all":     "c13-mem2reg-not-idempotent",
+	"ReorderTypes": "c13-reordertypes-not-idempotent",
+	"CompactTypes": "c13-compacttypes-not-idempotent",
 }
 
 func idempotenceKnown(pass string) string {
-	if noExclude {
-		return ""
-	}
-	for _, k := range knownIdempotence {
-		if k.pass == pass && ev.Excluded(k.tag) {
-			return k.tag
-		}
+	if tag := knownIdempotence[pass]; tag != "" && active(tag) {
+		return tag
 	}
 	return ""
 }
 
-type wfKnown struct {
-	tag   string
-	rule  string
-	match func(m *ir.Module, issues []irx.Issue, passes []string) bool
+// knownConstruct inspects the unmodified module for a construct whose handling by one of the
+// drawn passes is an open finding; such cases are skipped (counted) so that the search goes on.
+func knownConstruct(m *ir.Module, passes []string) string {
+	inl := hasPass(passes, "inline:all") || hasPass(passes, "inline:only") || hasPass(passes, "dxil:prepare")
+	m2r := hasPass(passes, "dxil:mem2reg") || hasPass(passes, "dxil:all")
+	if inl && active("c13-inline-callee-locals-not-reinitialised") && callInLoopToFunctionWithLocals(m) {
+		return "c13-inline-callee-locals-not-reinitialised"
+	}
+	if m2r && active("c13-mem2reg-single-block-in-loop") && singleBlockVarInLoop(m) {
+		return "c13-mem2reg-single-block-in-loop"
+	}
+	if m2r && active("c13-mem2reg-switch-early-break") && switchCaseEarlyBreak(m) {
+		return "c13-mem2reg-switch-early-break"
+	}
+	if m2r && active("c13-mem2reg-store-before-loop-dropped") && storeBeforeLoopThatStores(m) {
+		return "c13-mem2reg-store-before-loop-dropped"
+	}
+	if inl && active("c13-inline-early-return-in-loop-or-switch") && returnInsideLoopOrSwitch(m) {
+		return "c13-inline-early-return-in-loop-or-switch"
+	}
+	return ""
 }
 
-type idemKnown struct{ tag, pass string }
+func eachFunction(m *ir.Module, f func(*ir.Function)) {
+	for i := range m.Functions {
+		f(&m.Functions[i])
+	}
+	for i := range m.EntryPoints {
+		f(&m.EntryPoints[i].Function)
+	}
+}
 
-var knownWellFormedness []wfKnown
-var knownIdempotence []idemKnown
+// callInLoopToFunctionWithLocals: some Call statement inside a loop targets a function that
+// (itself or through its callees) declares local variables.
+func callInLoopToFunctionWithLocals(m *ir.Module) bool {
+	hasLocals := make([]int8, len(m.Functions)) // 0 unknown, 1 yes, -1 no
+	var locals func(fh ir.FunctionHandle, d int) bool
+	var blockCalls func(b ir.Block, f func(ir.StmtCall, bool) bool, inLoop bool, d int) bool
+	blockCalls = func(b ir.Block, f func(ir.StmtCall, bool) bool, inLoop bool, d int) bool {
+		if d > 500 {
+			return false
+		}
+		for _, s := range b {
+			if c, ok := s.Kind.(ir.StmtCall); ok && f(c, inLoop) {
+				return true
+			}
+			_, isLoop := s.Kind.(ir.StmtLoop)
+			for _, sb := range irx.SubBlocks(s.Kind) {
+				if blockCalls(sb, f, inLoop || isLoop, d+1) {
+					return true
+				}
+			}
+		}
+		return false
+	}
+	locals = func(fh ir.FunctionHandle, d int) bool {
+		if int(fh) >= len(m.Functions) || d > 64 {
+			return false
+		}
+		if hasLocals[fh] != 0 {
+			return hasLocals[fh] > 0
+		}
+		hasLocals[fh] = -1
+		fn := &m.Functions[fh]
+		r := len(fn.LocalVars) > 0 || blockCalls(ir.Block(fn.Body), func(c ir.StmtCall, _ bool) bool { return locals(c.Function, d+1) }, false, 0)
+		if r {
+			hasLocals[fh] = 1
+		}
+		return r
+	}
+	found := false
+	eachFunction(m, func(fn *ir.Function) {
+		if blockCalls(ir.Block(fn.Body), func(c ir.StmtCall, inLoop bool) bool { return inLoop && locals(c.Function, 0) }, false, 0) {
+			found = true
+		}
+	})
+	// a helper that is itself called from inside a loop inlines its own callees there as well
+	if !found {
+		callers := map[ir.FunctionHandle]bool{}
+		eachFunction(m, func(fn *ir.Function) {
+			blockCalls(ir.Block(fn.Body), func(c ir.StmtCall, inLoop bool) bool {
+				if inLoop {
+					callers[c.Function] = true
+				}
+				return false
+			}, false, 0)
+		})
+		for fh := range callers {
+			if locals(fh, 0) {
+				found = true
+			}
+		}
+	}
+	return found
+}
+
+// sroaUntypedCompose: a Compose of type handle 0 whose components are all loads of local
+// variables and do not build type 0 (SROA's rewrite of Load(struct local) leaves Type unset).
+func sroaUntypedCompose(m *ir.Module) bool {
+	found := false
+	eachFunction(m, func(fn *ir.Function) {
+		if found {
+			return
+		}
+		ty := irx.NewTypifier(m, fn)
+		for h, e := range fn.Expressions {
+			c, ok := e.Kind.(ir.ExprCompose)
+			if !ok || c.Type != 0 || len(c.Components) == 0 {
+				continue
+			}
+			all := true
+			for _, comp := range c.Components {
+				if int(comp) >= len(fn.Expressions) {
+					all = false
+					break
+				}
+				ld, isLoad := fn.Expressions[comp].Kind.(ir.ExprLoad)
+				if !isLoad || !isLocalVarExpr(fn, ld.Pointer) {
+					all = false
+					break
+				}
+			}
+			if !all {
+				continue
+			}
+			if _, err := ty.Type(ir.ExpressionHandle(h)); err != nil {
+				found = true
+				return
+			}
+		}
+	})
+	return found
+}
+
+// switchCaseEarlyBreak: a switch case is left by a `break` nested in an if / block of the case.
+func switchCaseEarlyBreak(m *ir.Module) bool {
+	var hasBreak func(b ir.Block, d int) bool
+	hasBreak = func(b ir.Block, d int) bool {
+		if d > 500 {
+			return false
+		}
+		for _, s := range b {
+			switch k := s.Kind.(type) {
+			case ir.StmtBreak:
+				return true
+			case ir.StmtIf:
+				if hasBreak(k.Accept, d+1) || hasBreak(k.Reject, d+1) {
+					return true
+				}
+			case ir.StmtBlock:
+				if hasBreak(k.Block, d+1) {
+					return true
+				}
+			}
+		}
+		return false
+	}
+	var walk func(b ir.Block, d int) bool
+	walk = func(b ir.Block, d int) bool {
+		if d > 500 {
+			return false
+		}
+		for _, s := range b {
+			if sw, ok := s.Kind.(ir.StmtSwitch); ok {
+				for _, c := range sw.Cases {
+					for _, cs := range c.Body {
+						switch k := cs.Kind.(type) {
+						case ir.StmtIf:
+							if hasBreak(k.Accept, 0) || hasBreak(k.Reject, 0) {
+								return true
+							}
+						case ir.StmtBlock:
+							if hasBreak(k.Block, 0) {
+								return true
+							}
+						}
+					}
+				}
+			}
+			for _, sb := range irx.SubBlocks(s.Kind) {
+				if walk(sb, d+1) {
+					return true
+				}
+			}
+		}
+		return false
+	}
+	found := false
+	eachFunction(m, func(fn *ir.Function) {
+		if walk(ir.Block(fn.Body), 0) {
+			found = true
+		}
+	})
+	return found
+}
+
+// storeBeforeLoopThatStores: a local variable is stored to and, later in textual order, a loop
+// stores to it as well.
+func storeBeforeLoopThatStores(m *ir.Module) bool {
+	found := false
+	eachFunction(m, func(fn *ir.Function) {
+		if found || len(fn.LocalVars) == 0 {
+			return
+		}
+		ptrVar := map[ir.ExpressionHandle]uint32{}
+		for h, e := range fn.Expressions {
+			if lv, ok := e.Kind.(ir.ExprLocalVariable); ok {
+				ptrVar[ir.ExpressionHandle(h)] = lv.Variable
+			}
+		}
+		var storesIn func(b ir.Block, out map[uint32]bool, d int)
+		storesIn = func(b ir.Block, out map[uint32]bool, d int) {
+			if d > 500 {
+				return
+			}
+			for _, s := range b {
+				if st, ok := s.Kind.(ir.StmtStore); ok {
+					if v, ok := ptrVar[st.Pointer]; ok {
+						out[v] = true
+					}
+				}
+				for _, sb := range irx.SubBlocks(s.Kind) {
+					storesIn(sb, out, d+1)
+				}
+			}
+		}
+		stored := map[uint32]bool{}
+		var walk func(b ir.Block, d int)
+		walk = func(b ir.Block, d int) {
+			if d > 500 {
+				return
+			}
+			for _, s := range b {
+				switch k := s.Kind.(type) {
+				case ir.StmtStore:
+					if v, ok := ptrVar[k.Pointer]; ok {
+						stored[v] = true
+					}
+				case ir.StmtLoop:
+					in := map[uint32]bool{}
+					storesIn(k.Body, in, 0)
+					storesIn(k.Continuing, in, 0)
+					for v := range in {
+						if stored[v] {
+							found = true
+						}
+					}
+				}
+				for _, sb := range irx.SubBlocks(s.Kind) {
+					walk(sb, d+1)
+				}
+			}
+		}
+		walk(ir.Block(fn.Body), 0)
+	})
+	return found
+}
+
+// returnInsideLoopOrSwitch: a helper function returns from inside one of its own loops or switches.
+func returnInsideLoopOrSwitch(m *ir.Module) bool {
+	var walk func(b ir.Block, nested bool, d int) bool
+	walk = func(b ir.Block, nested bool, d int) bool {
+		if d > 500 {
+			return false
+		}
+		for _, s := range b {
+			if _, ok := s.Kind.(ir.StmtReturn); ok && nested {
+				return true
+			}
+			n := nested
+			switch s.Kind.(type) {
+			case ir.StmtLoop, ir.StmtSwitch:
+				n = true
+			}
+			for _, sb := range irx.SubBlocks(s.Kind) {
+				if walk(sb, n, d+1) {
+					return true
+				}
+			}
+		}
+		return false
+	}
+	for i := range m.Functions {
+		if walk(ir.Block(m.Functions[i].Body), false, 0) {
+			return true
+		}
+	}
+	return false
+}
+
+// singleBlockVarInLoop: some local variable has all its direct loads and stores in ONE block
+// that lies inside a loop, and the first of them is a load (the value crosses the back edge).
+func singleBlockVarInLoop(m *ir.Module) bool {
+	found := false
+	eachFunction(m, func(fn *ir.Function) {
+		if found || len(fn.LocalVars) == 0 {
+			return
+		}
+		ptrVar := map[ir.ExpressionHandle]uint32{}
+		loadVar := map[ir.ExpressionHandle]uint32{}
+		for h, e := range fn.Expressions {
+			if lv, ok := e.Kind.(ir.ExprLocalVariable); ok {
+				ptrVar[ir.ExpressionHandle(h)] = lv.Variable
+			}
+		}
+		for h, e := range fn.Expressions {
+			if ld, ok := e.Kind.(ir.ExprLoad); ok {
+				if v, ok := ptrVar[ld.Pointer]; ok {
+					loadVar[ir.ExpressionHandle(h)] = v
+				}
+			}
+		}
+		type acc struct {
+			block  int
+			inLoop bool
+			load   bool
+		}
+		accs := map[uint32][]acc{}
+		blockID := 0
+		var walk func(b ir.Block, inLoop bool, d int)
+		walk = func(b ir.Block, inLoop bool, d int) {
+			if d > 500 {
+				return
+			}
+			blockID++
+			id := blockID
+			for _, s := range b {
+				switch k := s.Kind.(type) {
+				case ir.StmtEmit:
+					for h := k.Range.Start; h < k.Range.End; h++ {
+						if v, ok := loadVar[h]; ok {
+							accs[v] = append(accs[v], acc{id, inLoop, true})
+						}
+					}
+				case ir.StmtStore:
+					if v, ok := ptrVar[k.Pointer]; ok {
+						accs[v] = append(accs[v], acc{id, inLoop, false})
+					}
+				}
+				_, isLoop := s.Kind.(ir.StmtLoop)
+				for _, sb := range irx.SubBlocks(s.Kind) {
+					walk(sb, inLoop || isLoop, d+1)
+				}
+			}
+		}
+		walk(ir.Block(fn.Body), false, 0)
+		for _, l := range accs {
+			if len(l) < 2 || !l[0].inLoop || !l[0].load {
+				continue
+			}
+			same, stores := true, false
+			for _, a := range l {
+				same = same && a.block == l[0].block
+				stores = stores || !a.load
+			}
+			if same && stores {
+				found = true
+			}
+		}
+	})
+	return found
+}
 
 func hasPass(passes []string, prefix string) bool {
 	for _, p := range passes {
